@@ -343,13 +343,14 @@ impl<Payload: for<'de> Deserialize<'de>> JWT<Payload> {
             .ok_or_else(Response::Unauthorized)?;
         let payload: Payload = part_value(payload_part)?;
         let now = crate::util::unix_timestamp();
-        if payload.get("nbf").is_some_and(|nbf| nbf.as_u64().unwrap_or(0) > now) {
+        /* NumericDate can be any JSON number: negative or fractional ones must not be taken as absent */
+        if payload.get("nbf").is_some_and(|nbf| nbf.as_f64().unwrap_or(0.) > now as f64) {
             return Err(Response::Unauthorized().with_text(UNAUTHORIZED_MESSAGE))
         }
-        if payload.get("exp").is_some_and(|exp| exp.as_u64().unwrap_or(u64::MAX) <= now) {
+        if payload.get("exp").is_some_and(|exp| exp.as_f64().unwrap_or(f64::INFINITY) <= now as f64) {
             return Err(Response::Unauthorized().with_text(UNAUTHORIZED_MESSAGE))
         }
-        if payload.get("iat").is_some_and(|iat| iat.as_u64().unwrap_or(0) > now) {
+        if payload.get("iat").is_some_and(|iat| iat.as_f64().unwrap_or(0.) > now as f64) {
             return Err(Response::Unauthorized().with_text(UNAUTHORIZED_MESSAGE))
         }
 
